@@ -16,6 +16,7 @@
  *     D <sess> <reason>                   coap_session_disconnected(session, reason); the session is dead
  *                                         afterwards (its socket is closed): later events on it are skipped
  *     Q                                   dump the send queue (absolute deadlines)
+ *   first, per session, what the getters report after the setters ran: 0.cfg:<k>:<at_ip>:<at_fp>:<arf_ip>:<arf_fp>:<max>
  *   output items, each prefixed with "<index of the event>." (times relative to the start of the case):
  *     s:<ret>  tx:<t>:<sess>:<bytes>  nk:<t>:<sess>:<reason>:<mid>:<has_pdu>
  *     w:<t>:<ms>:<deadline of the queue head or -1>
@@ -127,6 +128,14 @@ static void c06(void) {
   }
   g_logging = 1;
   g_first = 1;
+  g_ev = 0;
+  for (int k = 0; k < g_nsess; k++) {     /* what the getters say after the setters ran */
+    coap_fixed_point_t at = coap_session_get_ack_timeout(g_sess[k]);
+    coap_fixed_point_t arf = coap_session_get_ack_random_factor(g_sess[k]);
+    item_sep();
+    printf("cfg:%d:%u:%u:%u:%u:%u", k, at.integer_part, at.fractional_part, arf.integer_part,
+           arf.fractional_part, (unsigned)coap_session_get_max_retransmit(g_sess[k]));
+  }
   long long last_tick = -1, last_wait = 0;
   g_ev = -1;
   while (i < vntok) {
